@@ -464,3 +464,141 @@ Lemma abort_witness_result :
   let r := prune abort_params abort_witness in
   map (fun t => (pt_id t, pt_status t)) (r_tasks r) = [(1, 1); (2, 6); (3, 6)]%N /\ map pc_ready (r_changes r) = [None] /\ r_aborted r = [1%N].
 Proof. vm_compute. repeat split; reflexivity. Qed.
+
+(* ================================================================== the converse directions: what Prune MUST do *)
+Lemma visit_covers : forall p l count c, In c l -> exists count', In (c, decide p count' c) (visit p count l).
+Proof.
+  intros p l. induction l as [|x l IH]; intros count c H; [contradiction|]. simpl. destruct H as [H|H].
+  - subst x. exists count. left. reflexivity.
+  - destruct (IH (match decide p count x with RemoveReady => count - 1 | _ => count end) c H) as [k Hk]. exists k. right. exact Hk.
+Qed.
+
+(* a finished change that became ready before the prune limit is removed, whatever the count *)
+Theorem old_ready_removed : forall p order s c r, In c order -> pc_ready c = Some r -> r < prune_limit p ->
+  ~ has_id (r_changes (prune_with p order s)) (pc_id c).
+Proof.
+  intros p order s c r Hin Hr Hold. destruct (visit_covers p order (ready_count order) c Hin) as [k Hk].
+  destruct (prune_completes p order s) as (_ & R & _). apply (R c _ Hk).
+  unfold decide. rewrite Hr. assert (E : (r <? prune_limit p) = true) by lia. rewrite E. reflexivity.
+Qed.
+
+(* an unready change without tasks spawned (clamped) before the prune limit is removed *)
+Theorem old_empty_removed : forall p order s c, In c order -> pc_ready c = None -> pc_tasks c = [] ->
+  clamped_spawn p c < prune_limit p -> ~ has_id (r_changes (prune_with p order s)) (pc_id c).
+Proof.
+  intros p order s c Hin Hr Ht Hold. destruct (visit_covers p order (ready_count order) c Hin) as [k Hk].
+  destruct (prune_completes p order s) as (_ & R & _). apply (R c _ Hk).
+  unfold decide. rewrite Hr, Ht. assert (E : (clamped_spawn p c <? prune_limit p) = true) by lia. rewrite E. reflexivity.
+Qed.
+
+(* an unready change that is old enough for the abort, not pending, and not the empty-and-prunable case IS aborted *)
+Theorem old_unready_aborted : forall p order s c, In c order -> pc_ready c = None ->
+  (pc_tasks c <> [] \/ prune_limit p <= clamped_spawn p c) -> clamped_spawn p c < abort_limit p -> is_pending p c = false ->
+  In (pc_id c) (r_aborted (prune_with p order s)).
+Proof.
+  intros p order s c Hin Hr Hne Hold Hp. destruct (visit_covers p order (ready_count order) c Hin) as [k Hk].
+  destruct (prune_completes p order s) as (_ & _ & A). rewrite A. apply in_map_iff. exists (c, decide p k c). split; [reflexivity|].
+  apply filter_In. split; [exact Hk|]. simpl. unfold decide. rewrite Hr, Hp.
+  assert (E : (clamped_spawn p c <? abort_limit p) = true) by lia. rewrite E.
+  destruct Hne as [Hne|Hne].
+  - destruct (pc_tasks c); [congruence|]. rewrite andb_false_r. reflexivity.
+  - assert (E2 : (clamped_spawn p c <? prune_limit p) = false) by lia. rewrite E2. reflexivity.
+Qed.
+
+(* ---- never more than maxReadyChanges finished changes are kept *)
+Fixpoint final_count (p : params) (count : Z) (l : list pchange) : Z :=
+  match l with
+  | [] => count
+  | c :: r => final_count p (match decide p count c with RemoveReady => count - 1 | _ => count end) r
+  end.
+
+Lemma final_count_le : forall p l count, final_count p count l <= count.
+Proof.
+  intros p l. induction l as [|c l IH]; intros count; simpl; [lia|].
+  destruct (decide p count c); try apply IH. specialize (IH (count - 1)). lia.
+Qed.
+
+Definition kept_ready (cd : pchange * decision) : bool :=
+  is_some (pc_ready (fst cd)) && match snd cd with Keep => true | _ => false end.
+
+Lemma kept_ready_bound : forall p l count c, In (c, Keep) (visit p count l) -> pc_ready c <> None ->
+  final_count p count l <= p_max_ready p.
+Proof.
+  intros p l. induction l as [|x l IH]; intros count c H Hr; simpl in H; [contradiction|]. simpl. destruct H as [H|H].
+  - inversion H as [[E1 E2]]. subst x. rewrite E2. destruct (pc_ready c) as [r|] eqn:Er; [|congruence].
+    destruct (keep_ready p count c r Er E2) as [_ K]. pose proof (final_count_le p l count). lia.
+  - eapply IH; eassumption.
+Qed.
+
+Lemma final_count_is_kept : forall p l count,
+  final_count p count l = count - ready_count l + Z.of_nat (length (filter kept_ready (visit p count l))).
+Proof.
+  intros p l. unfold ready_count. induction l as [|c l IH]; intros count; simpl; [lia|].
+  unfold kept_ready at 1. simpl. unfold decide at 2 3. destruct (pc_ready c) as [r|] eqn:Er; simpl.
+  - destruct ((r <? prune_limit p) || (p_max_ready p <? count)) eqn:E; simpl.
+    + rewrite IH. unfold decide. rewrite Er, E. lia.
+    + rewrite IH. unfold decide. rewrite Er, E. simpl length. lia.
+  - assert (D : match decide p count c with RemoveReady => count - 1 | _ => count end = count).
+    { unfold decide. rewrite Er. destruct (_ && _); [reflexivity|]. destruct (_ <? _); [destruct (is_pending p c)|]; reflexivity. }
+    rewrite D, IH.
+    destruct (if (clamped_spawn p c <? prune_limit p) && match pc_tasks c with [] => true | _ :: _ => false end
+              then RemoveEmpty else if clamped_spawn p c <? abort_limit p then if is_pending p c then Keep else AbortIt else Keep);
+      simpl; lia.
+Qed.
+
+(* C09_count_bound: the number of finished changes Prune decides to keep never exceeds maxReadyChanges (if that is >= 0) *)
+Theorem count_bound : forall p order, 0 <= p_max_ready p ->
+  Z.of_nat (length (filter kept_ready (vs_of p order))) <= p_max_ready p.
+Proof.
+  intros p order H0. unfold vs_of. pose proof (final_count_is_kept p order (ready_count order)) as F.
+  destruct (filter kept_ready (visit p (ready_count order) order)) as [|[c d] rest] eqn:E; [simpl; lia|].
+  assert (Hin : In (c, d) (filter kept_ready (visit p (ready_count order) order))) by (rewrite E; left; reflexivity).
+  apply filter_In in Hin. destruct Hin as [Hin Hk]. unfold kept_ready in Hk. simpl in Hk. apply andb_true_iff in Hk. destruct Hk as [Hs Hd].
+  destruct d; try discriminate.
+  assert (Hr : pc_ready c <> None) by (destruct (pc_ready c); [discriminate | discriminate]).
+  pose proof (kept_ready_bound p order (ready_count order) c Hin Hr). lia.
+Qed.
+
+(* ---- a change that stays keeps every task it lists (no dangling task reference afterwards) *)
+Lemma apply_changes_origin : forall p vs chs tks ab chs' tks' ab' c',
+  apply p vs chs tks ab = (chs', tks', ab') -> In c' chs' -> exists c, In c chs /\ pc_id c = pc_id c' /\ pc_tasks c = pc_tasks c'.
+Proof.
+  intros p vs. induction vs as [|[c d] vs IH]; intros chs tks ab chs' tks' ab' c' H Hin; simpl in H.
+  - inversion H; subst. exists c'. repeat split; assumption.
+  - destruct d.
+    + eapply IH; eassumption.
+    + destruct (IH _ _ _ _ _ _ _ H Hin) as [x [Hx E]]. apply filter_In in Hx. exists x. tauto.
+    + destruct (IH _ _ _ _ _ _ _ H Hin) as [x [Hx [E1 E2]]]. apply in_map_iff in Hx. destruct Hx as [y [Ey Hy]].
+      exists y. split; [assumption|]. subst x. destruct (pc_id y =? pc_id c)%N; simpl in *; split; assumption.
+    + destruct (IH _ _ _ _ _ _ _ H Hin) as [x [Hx E]]. apply filter_In in Hx. exists x. tauto.
+Qed.
+
+Lemma mem_In : forall x l, mem x l = true <-> In x l.
+Proof.
+  intros x l. unfold mem. rewrite existsb_exists. split.
+  - intros [y [Hy E]]. apply N.eqb_eq in E. subst; assumption.
+  - intros H. exists x. split; [assumption | apply N.eqb_refl].
+Qed.
+
+(* well-formed listing (what AddTask establishes): the changes are visited once each, every task a change lists exists and is
+   linked back to it, and no task is listed by two different changes *)
+Definition listing_ok (order : list pchange) (s : pstate) : Prop :=
+  (forall c, In c (ps_changes s) -> In c order) /\
+  (forall c id, In c order -> In id (pc_tasks c) -> exists sp, has_task (ps_tasks s) id (pc_id c) sp) /\
+  (forall c d id, In c order -> In d order -> In id (pc_tasks c) -> In id (pc_tasks d) -> pc_id c = pc_id d).
+
+Theorem kept_change_keeps_tasks : forall p order s c' id, listing_ok order s ->
+  In c' (r_changes (prune_with p order s)) -> In id (pc_tasks c') -> In id (map pt_id (r_tasks (prune_with p order s))).
+Proof.
+  intros p order s c' id (L0 & L1 & L2) Hc Hid.
+  destruct (prune_with_changes p order s) as (tks & ab & A & _).
+  destruct (apply_changes_origin _ _ _ _ _ _ _ _ _ A Hc) as [c [Hcs [Eid Etk]]].
+  assert (Hco : In c order) by (apply L0; assumption). rewrite <- Etk in Hid.
+  destruct (L1 c id Hco Hid) as [sp Ht].
+  apply (tasks_kept_with_change p order s id (pc_id c) sp Ht).
+  - intros x Hx. destruct (mem id (pc_tasks x)) eqn:M; [|reflexivity]. exfalso. apply mem_In in M.
+    pose proof (visit_in _ _ _ _ _ Hx) as [Hxo _]. pose proof (L2 x c id Hxo Hco M Hid) as E.
+    destruct (prune_completes p order s) as (_ & R & _). apply (R x RemoveReady Hx eq_refl).
+    exists c'. split; [assumption | congruence].
+  - left. exists c'. split; [assumption | symmetry; assumption].
+Qed.
